@@ -522,6 +522,31 @@ def r_count(F, engine, fn):
 
 # ------------------------------------------------------------------------------------------
 # R-GUARD: a bounds guard refuses exactly the out-of-bounds arguments
+def poly(t):
+    """Polynomial normal form of a value term over Z: {sorted tuple of atoms: coefficient} (the empty tuple is the constant).
+    +, - and * are expanded; everything else (shifts, masks, members, calls) is an atom. Two terms with the same normal form
+    denote the same value wherever neither wraps."""
+    if t[0] == "const":
+        return {(): t[1]} if t[1] else {}
+    if t[0] == "initlist" and len(t[1]) == 1:
+        return poly(t[1][0])            # `std::size_t{32}`
+    if t[0] == "op" and t[1] in ("+", "-"):
+        a, b = poly(t[2]), poly(t[3])
+        out = dict(a)
+        for k, v in b.items():
+            out[k] = out.get(k, 0) + (v if t[1] == "+" else -v)
+        return {k: v for k, v in out.items() if v}
+    if t[0] == "op" and t[1] == "*":
+        a, b = poly(t[2]), poly(t[3])
+        out = {}
+        for ka, va in a.items():
+            for kb, vb in b.items():
+                k = tuple(sorted(ka + kb, key=repr))
+                out[k] = out.get(k, 0) + va * vb
+        return {k: v for k, v in out.items() if v}
+    return {(t,): 1}
+
+
 def linear(t):
     """Linear form of a value term over Z: ({atom: coef}, const). Non-arithmetic terms are atoms."""
     if t[0] == "const":
